@@ -130,6 +130,7 @@ package dns
 //@ func (s *ServerDnsListener) packet
 //@   property C12, C13
 //@   safe
+//@   callsite UpdateAcked#1 (err error) require err == nil                                  :queues_touched_only_after_the_peer_address_was_validated
 //@   callsite UpdateAcked#1 (user *userConnection) assume util.InWF(&user.in) "the in- and out-queue of a session own disjoint slices (separation assumption)"
 //@   callsite Append#1 (e0 error, user *userConnection) assume util.OutWF(&user.out) "the in- and out-queue of a session own disjoint slices (separation assumption)"
 //@   requires srvWF(s) && v != nil && v.UserId < 1296 && m != nil && len(m.Question) == 1 && remoteAddr != nil
